@@ -1211,6 +1211,13 @@ async fn run(_tier: Tier) {
             (Box::new(dsrv) as Box<dyn std::any::Any>, Box::new(ssrv) as Box<dyn std::any::Any>)
         }};
     }
+    // The mandatory middleware in its relaxed mode (it then lets IQUERY and
+    // multi-question requests through to the service; everything it does to
+    // responses - size limit, TC, id, QR, RD - stays).
+    let relaxed = sim::chance("cfg.mandatory_relaxed", 1, 4);
+    if relaxed {
+        sim::stat("probe.mandatory_middleware_relaxed");
+    }
     let _servers = if use_cookies {
         let mut svc = CookiesMiddlewareSvc::<Vec<u8>, _, ()>::new(SimService, [7u8; 16]);
         if sim::chance("cfg.cookie_deny_list", 1, 3) {
@@ -1219,10 +1226,10 @@ async fn run(_tier: Tier) {
             sim::stat("probe.cookie_deny_list");
         }
         let svc = EdnsMiddlewareSvc::new(svc);
-        start!(MandatoryMiddlewareSvc::<Vec<u8>, _, ()>::new(svc))
+        start!(if relaxed { MandatoryMiddlewareSvc::<Vec<u8>, _, ()>::relaxed(svc) } else { MandatoryMiddlewareSvc::<Vec<u8>, _, ()>::new(svc) })
     } else {
         let svc = EdnsMiddlewareSvc::<Vec<u8>, _, ()>::new(SimService);
-        start!(MandatoryMiddlewareSvc::<Vec<u8>, _, ()>::new(svc))
+        start!(if relaxed { MandatoryMiddlewareSvc::<Vec<u8>, _, ()>::relaxed(svc) } else { MandatoryMiddlewareSvc::<Vec<u8>, _, ()>::new(svc) })
     };
 
     let exec = Exec::new();
